@@ -109,6 +109,43 @@ fn c01_try_lock() {
     });
 }
 
+/// the Arc-flavoured twins (`try_lock_arc`, `lock_arc`) protect the payload as well
+fn c01_arc() {
+    model(3, || {
+        let m = std::sync::Arc::new(Mutex::new(Cell::new(0)));
+        let hs: Vec<_> = (0..2)
+            .map(|_| {
+                let m = m.clone();
+                spawn(move || loop {
+                    if let Some(g) = m.try_lock_arc() {
+                        bump(&g);
+                        break;
+                    }
+                    thread::yield_now();
+                })
+            })
+            .collect();
+        for h in hs {
+            h.join().unwrap();
+        }
+        assert_eq!(peek(&m.try_lock_arc().unwrap()), 2);
+    });
+    model(2, || {
+        let m = std::sync::Arc::new(Mutex::new(Cell::new(0)));
+        let m2 = m.clone();
+        let h = spawn(move || {
+            let g = block_on(m2.lock_arc());
+            bump(&g);
+        });
+        {
+            let g = block_on(m.lock_arc());
+            bump(&g);
+        }
+        h.join().unwrap();
+        assert_eq!(peek(&m.try_lock_arc().unwrap()), 2);
+    });
+}
+
 /// two threads take the mutex with lock().await (slow path, event-listener) and update the payload
 fn c01_lock() {
     model(2, || {
@@ -949,6 +986,7 @@ const ALL: &[(&str, fn())] = &[
     ("c09_barrier", c09_barrier),
     ("c01_try_lock", c01_try_lock),
     ("c01_lock", c01_lock),
+    ("c01_arc", c01_arc),
     ("c02_try", c02_try),
     ("c02_upgrade", c02_upgrade),
     ("c02_async", c02_async),
